@@ -610,9 +610,6 @@ func cmdCheck(args []string) int {
 	if *budgetFlag > 0 {
 		tc.budgetSec = *budgetFlag
 	}
-	if pc.kernel {
-		return checkKernelLeg(pc, *tier, seed, tc, *noEvidence)
-	}
 	start := time.Now()
 	b := buildHarness(pc.race)
 	defer b.cleanup()
@@ -773,6 +770,52 @@ func cmdCheck(args []string) int {
 		reported = append(reported, map[string]interface{}{"known": false, "clause": rf.Violation.Clause, "key": rf.Violation.Key, "replay": path, "detail": abbreviate(rf.Violation.Detail, 400)})
 		exit = 1
 	}
+	var kernelExtra map[string]interface{}
+	if id == "C19" {
+		kb := tc.budgetSec / 3
+		if kb < 15 {
+			kb = 15
+		}
+		kx, kviol := runKernelLeg(seed, *tier, kb, W)
+		kernelExtra = kx
+		for _, kv := range kviol {
+			c := class{"kernel:" + kv.Clause, kv.Key}
+			if seen[c] {
+				continue
+			}
+			seen[c] = true
+			name := fmt.Sprintf("C19-kernel-%s-%d.json", sanitize(kv.Clause+"-"+kv.Key), kv.History.Seed)
+			path := filepath.Join(replayDir, name)
+			rfb, _ := json.MarshalIndent(map[string]interface{}{"property": "C19", "kernel": true, "history": kv.History, "violation": Violation{kv.Clause, kv.Key, kv.Detail}, "tree": tree}, "", " ")
+			os.WriteFile(path, rfb, 0o644)
+			// a kernel-leg violation is reported only if re-executing the history shows it again, twice
+			okN := 0
+			for i := 0; i < 2; i++ {
+				if vs, err := replayKernelLeg(kv.History); err == nil {
+					for _, v2 := range vs {
+						if v2.Clause == kv.Clause && v2.Key == kv.Key {
+							okN++
+							break
+						}
+					}
+				}
+			}
+			if okN < 2 {
+				os.Remove(path)
+				fatal2("kernel-leg violation %s/%s (seed %d) did not recur when its history was re-executed (%d/2): nothing reported", kv.Clause, kv.Key, kv.History.Seed, okN)
+			}
+			v := Violation{"kernel:" + kv.Clause, kv.Key, kv.Detail}
+			if kf := matchKnown(known, id, v); kf != nil {
+				fmt.Printf("KNOWN-FINDING: property=%s %s [%s/%s] replay=%s\n", id, kf.text, kf.clause, kf.key, path)
+				reported = append(reported, map[string]interface{}{"known": true, "clause": v.Clause, "key": v.Key, "replay": path})
+				continue
+			}
+			fmt.Printf("VIOLATION property=%s replay=%s\n", id, path)
+			fmt.Printf("  clause=%s key=%s\n  %s\n", v.Clause, v.Key, abbreviate(v.Detail, 600))
+			reported = append(reported, map[string]interface{}{"known": false, "clause": v.Clause, "key": v.Key, "replay": path, "detail": abbreviate(v.Detail, 400)})
+			exit = 1
+		}
+	}
 	for c, msg := range unreproduced {
 		if !seen[c] {
 			// a race was reported by the detector but no run reproduces it: harness trouble, nothing is claimed
@@ -781,7 +824,7 @@ func cmdCheck(args []string) int {
 	}
 	wall := time.Since(start).Seconds()
 	if !*noEvidence {
-		writeEvidence(pc, *tier, seed, total, reported, wall, buildS, b.info, tree, W)
+		writeEvidence(pc, *tier, seed, total, reported, wall, buildS, b.info, tree, W, kernelExtra)
 	}
 	fmt.Printf("%s %s: %d runs (%d non-trivial, %d distinct interleavings), %d steps, sim time %s, %d violating runs, %.1fs wall (build %.1fs)\n",
 		id, *tier, total.Runs, total.NonTrivial, len(total.Signatures), total.Steps, time.Duration(total.SimTimeNs), total.ViolCount, wall, buildS)
@@ -827,7 +870,7 @@ var realVsStub = map[string]string{
 	"encoding/json, bufio, context, sync":     "real (standard library, un-instrumented)",
 }
 
-func writeEvidence(pc *propCfg, tier string, seed uint64, t *Summary, reported []map[string]interface{}, wall, buildS float64, instr, tree string, workers int) {
+func writeEvidence(pc *propCfg, tier string, seed uint64, t *Summary, reported []map[string]interface{}, wall, buildS float64, instr, tree string, workers int, extra map[string]interface{}) {
 	faults := map[string]int{}
 	probes := map[string]int{}
 	other := map[string]int{}
@@ -893,14 +936,12 @@ func writeEvidence(pc *propCfg, tier string, seed uint64, t *Summary, reported [
 			"real_vs_stub":                   realVsStub,
 		},
 	}
+	for k, v := range extra {
+		ev["coverage"].(map[string]interface{})[k] = v
+	}
 	b, _ := json.MarshalIndent(ev, "", " ")
 	os.MkdirAll(filepath.Join(verifDir, "evidence"), 0o755)
 	os.WriteFile(filepath.Join(verifDir, "evidence", pc.id+".json"), b, 0o644)
-}
-
-func checkKernelLeg(pc *propCfg, tier string, seed uint64, tc tierCfg, noEvidence bool) int {
-	fatal2("kernel leg not built yet")
-	return 2
 }
 
 func cmdReplay(args []string) int {
@@ -912,6 +953,26 @@ func cmdReplay(args []string) int {
 	raw, err := os.ReadFile(path)
 	if err != nil {
 		fatal2("%v", err)
+	}
+	var kr struct {
+		Kernel    bool      `json:"kernel"`
+		History   kHistory  `json:"history"`
+		Violation Violation `json:"violation"`
+	}
+	if json.Unmarshal(raw, &kr) == nil && kr.Kernel {
+		vs, err := replayKernelLeg(kr.History)
+		if err != nil {
+			fatal2("%v", err)
+		}
+		for _, v := range vs {
+			fmt.Printf("  violation clause=%s key=%s: %s\n", v.Clause, v.Key, abbreviate(v.Detail, 800))
+			if v.Clause == kr.Violation.Clause && v.Key == kr.Violation.Key {
+				fmt.Printf("VIOLATION property=C19 replay=%s\n", path)
+				return 1
+			}
+		}
+		fmt.Println("recorded violation did not occur")
+		return 0
 	}
 	var rf ReplayFile
 	if err := json.Unmarshal(raw, &rf); err != nil {
